@@ -93,6 +93,7 @@ def run(res, tier):
         f = lambda V: doc_cost(V, Psi, Thp, a_tik, a_oth, reg_method, square)
         c_u = f(U)
         desc = dict(family=fam, estimator=repr(reg), n_states=ns, n_inputs=nu, cost=c_u)
+        common.note_case('fit', desc['estimator'], X)
         info = None
         if reg_method == 'tikhonov':
             e = pykoop.Edmd(alpha=alpha).fit(X, n_inputs=nu, episode_feature=True)
